@@ -35,7 +35,7 @@ func (c09) Rule() string {
 }
 
 func (c09) Assumptions() []string {
-	return []string{"per-row values come from the engine's own plain select (per the property's observe_at); the fold is independent", "group columns are shown as text by the engine: compared after canonical rendering (%d, %f, true/false)", "quantile is excluded (approximate by design, register B10); mixed int/float arguments inside one aggregate are not generated (B13)"}
+	return []string{"per-row values come from the engine's own plain select (per the property's observe_at); the fold is independent", "group columns are shown as text by the engine: compared after canonical rendering (%d, %f, true/false)", "quantile is excluded (approximate by design, register B10); integers and floats mixed inside one aggregate are judged only for sum/avg/min/max over raw numeric text, with their mathematical meaning (float as soon as one value is a float; min/max keep the kind of the extreme value; no integral floats in the pool, so no cross-kind ties); other mixed-kind arguments are not generated (B13)"}
 }
 
 func (c09) Gates(tier string, m map[string]int64) []rt.Gate {
